@@ -104,7 +104,18 @@ func c08prop(ev *evid.Rec) func(rt *rapid.T) {
 			k = genOffset(rt, "offset", size)
 		}
 		inFolder := rapid.Bool().Draw(rt, "infolder")
+		// how the client's bytes on the transfer connection are cut into segments ("" = one Write per message)
+		seg := rapid.SampledFrom([]string{"", "", "random", "header", "bytes"}).Draw(rt, "segmentation")
+		segSeed := rapid.Uint64().Draw(rt, "segseed")
 		inWorld(rt, hlsim.Options{Agreement: "a", Accounts: []hlsim.AccountSpec{acct("admin", "Admin", "adminpw", allAccess)}}, func(rt *rapid.T, w *hlsim.World) {
+			if seg != "" {
+				w.NewSplit = func(kind string) hlsim.Splitter {
+					if kind == "xfer" {
+						return &c02split{mode: seg, seed: segSeed}
+					}
+					return nil
+				}
+			}
 			dir := w.FileRoot
 			var path []byte
 			if inFolder {
@@ -192,7 +203,7 @@ func c08prop(ev *evid.Rec) func(rt *rapid.T) {
 			}
 		})
 		nt := size > 0 && (k > 0 || storedInfo || storedRsrc || size > 32768)
-		ev.Case(evid.Hash(name, content, mode, k, storedInfo, storedRsrc, rsrc), nt, "mode:"+mode, fmt.Sprintf("info:%v", storedInfo), fmt.Sprintf("rsrc:%v", storedRsrc), sizeClass(size))
+		ev.Case(evid.Hash(name, content, mode, k, storedInfo, storedRsrc, rsrc, seg, segSeed), nt, "mode:"+mode, "segmentation:"+seg, fmt.Sprintf("info:%v", storedInfo), fmt.Sprintf("rsrc:%v", storedRsrc), sizeClass(size))
 		if nt && ev.WantSample() {
 			ev.Sample(map[string]any{"name": name, "size": size, "mode": mode, "resume_offset": k, "stored_info_fork": storedInfo, "stored_resource_fork": storedRsrc})
 		}
